@@ -151,6 +151,22 @@ func runC19(b *fw.B) {
 		}
 	}
 
+	// ---- previous slot / epoch (get_previous_epoch saturates at genesis)
+	for _, x := range []uint64{0, 1, 2, 1 << 32, ^uint64(0) - 1, ^uint64(0), b.Rng.Uint64(), b.Rng.Uint64() >> 40} {
+		b.Case("previous", fmt.Sprintf("Slot/Epoch(%d).Previous()", x))
+		want := x
+		if x > 0 {
+			want = x - 1
+		}
+		b.Inc("previous_checked")
+		if got := uint64(common.Slot(x).Previous()); got != want {
+			b.Violate("previous/slot-wrong", fmt.Sprintf("Slot(%d).Previous()=%d want %d", x, got, want), nil)
+		}
+		if got := uint64(common.Epoch(x).Previous()); got != want {
+			b.Violate("previous/epoch-wrong", fmt.Sprintf("Epoch(%d).Previous()=%d want %d", x, got, want), nil)
+		}
+	}
+
 	// ---- power of two helpers
 	pow2 := func(n uint64) {
 		b.Case("pow2", fmt.Sprintf("IsPowerOfTwo/NextPowerOfTwo(%d)", n))
